@@ -246,7 +246,8 @@ class Ctx:
         if res.rc == 124:
             raise MachineryError("TLC timed out after %ss on %s" % (timeout, mc))
         if res.rc not in (0, 12, 13, 10, 11) and not viol:
-            raise MachineryError("TLC failed rc=%s on %s:\n%s" % (res.rc, mc, "\n".join(res.tail[-40:])))
+            first = next((i for i, l in enumerate(res.tail) if "rror" in l or "xception" in l), max(0, len(res.tail) - 40))
+            raise MachineryError("TLC failed rc=%s on %s:\n%s\n...\n%s" % (res.rc, mc, "\n".join(res.tail[first:first + 12]), "\n".join(res.tail[-8:])))
         if count:
             self.cov["states"] += res.distinct
             self.cov["transitions"] += res.generated
